@@ -2,6 +2,7 @@ import PPProofs.Props.C04
 import PPProofs.Lemmas.LRIter
 import PPProofs.Lemmas.LRGrow
 import PPProofs.Lemmas.LRIterG
+import PPProofs.Lemmas.LRIterWs
 import PPProofs.Lemmas.ParseMono
 import PPProofs.Lemmas.ParseAdv
 /-!
@@ -524,5 +525,89 @@ example : parseLR exG2 exS5 6 [] 0 0 false true = enhFix 0 (parse exG2 exS5 6 5 
       | fail c l => rw [h3] at h1; simp at h1
       | idx => rw [h3] at h1; simp at h1
       | hang => rw [h3] at h1; simp at h1)
+
+/-! ## With whitespace skipping: same tokens, same failures; the end may lie after skipped whitespace -/
+
+/-- `y` is `x`, except that a match may end at `z e` instead of `e` (same tokens) -/
+def SameButEnd (z : Nat → Nat) (x y : Out) : Prop :=
+  match x with
+  | .ok e ts => ∃ e', y = .ok e' ts ∧ (e' = e ∨ e' = z e)
+  | _ => y = x
+
+theorem SameButEnd.refl (z : Nat → Nat) (x : Out) : SameButEnd z x x := by
+  cases x <;> simp [SameButEnd]
+
+/-- **C04 on the model parser with whitespace skipping**: the pre-parse of `Z = ZeroOrMore R` and `R = And (t0 :: rest)`
+    may move (to `skZ e` / `skR e`), provided the first tail element `t0` skips at least as much itself (`ht0`, `ht0Z`: its
+    outcome with pre-parse at `e` is its outcome at `skZ e`, and without pre-parse at `skR e`) — the situation of the live
+    objects (all share the default whitespace characters, `skipWhitespace` on).  Then `parseLR` on `E` and `parse` on the
+    iterative grammar `I` give the SAME TOKENS and the same failures; the end locations agree except when the repetition
+    matches nothing, where `I` ends at `skZ e` (`exG2_end_differs`).
+    `_partial`: still assumed — `b` ignores its `callPreParse` flag at `pre` (`hb0`), no actions / names on the five
+    wrapper nodes, Forward-free base / tail, matches end inside the input, base failure at or after `pre`. -/
+theorem parseLR_direct_eq_parse_iterative_ws_partial {g : Grammar} {E m sq b t0 I Z R : Nat} {rest : List Nat}
+    {nE nm nsq nI nZ nR : Node}
+    (h : DirectLR g E m sq b (t0 :: rest) nE nm nsq) (hi : IterG g I Z R b t0 rest nI nZ nR)
+    (s : List Char) {D : Nat → Prop} (hD : FwdFree g D) (hb : D b)
+    (hts : ∀ t ∈ t0 :: rest, D t) (f : Nat) (env : Env) (loc pre : Nat) (acts callPre : Bool) (skZ skR : Nat → Nat)
+    (hpreE : (if callPre && nE.callPre then preParse (parseLR g s (f + 3) env) nE s loc else PreR.at loc) = .at pre)
+    (hpre : ∀ p, (if nsq.callPre then preParse p nsq s pre else PreR.at pre) = .at pre)
+    (henv : env.get ⟨E, pre, acts⟩ = none)
+    (hadv : ∀ a e e' ts', tailOf g s (f + 1) (t0 :: rest) a e = .ok e' ts' → e < e')
+    (hbase : acts = true → AgreeOut (baseOf g s (f + 2) b pre false) (baseOf g s (f + 2) b pre true))
+    (htail : acts = true → ∀ e, pre ≤ e →
+      AgreeOut (tailOf g s (f + 1) (t0 :: rest) false e) (tailOf g s (f + 1) (t0 :: rest) true e))
+    (hpZ : ∀ p e, (if nZ.callPre then preParse p nZ s e else PreR.at e) = .at (skZ e))
+    (hpR : ∀ p e, (if nR.callPre then preParse p nR s e else PreR.at e) = .at (skR e))
+    (ht0 : ∀ e a, parse g s (f + 1) t0 (skR e) a false = parse g s (f + 1) t0 e a true)
+    (ht0Z : ∀ e a, parse g s (f + 1) t0 (skZ e) a true = parse g s (f + 1) t0 e a true)
+    (hb0 : parse g s (f + 3) b pre acts false = parse g s (f + 3) b pre acts true)
+    (hnh : baseOf g s (f + 2) b pre acts ≠ .hang)
+    (hbidx : baseOf g s (f + 2) b pre acts ≠ .idx)
+    (hbl : ∀ l, baseOf g s (f + 2) b pre acts = .fail .parse l → pre ≤ l)
+    (hbb : ∀ e0 ts0, baseOf g s (f + 2) b pre acts = .ok e0 ts0 → e0 ≤ s.length)
+    (hbd : ∀ e e' ts', tailOf g s (f + 1) (t0 :: rest) acts e = .ok e' ts' → e' ≤ s.length) :
+    ∃ X, parseLR g s (f + 4) env E loc acts callPre = enhFix pre X ∧
+      SameButEnd skZ X (parse g s (f + 4) I pre acts false) := by
+  refine ⟨_, parseLR_direct_eq_iterative_partial h s hD hb hts f env loc pre acts callPre hpreE hpre henv
+    (fun e e' ts' _ h1 => hadv false e e' ts' h1) hbase htail, ?_⟩
+  rw [parse_I_step_ws hi s (f + 1) skZ skR hpZ hpR ht0 ht0Z pre acts hb0 (hadv acts)]
+  have hfuel : baseOf g s (f + 1 + 2) b pre acts = baseOf g s (f + 2) b pre acts :=
+    parse_step_mono g s (f + 2) b pre acts true _ rfl hnh
+  rw [hfuel]
+  unfold iterRef
+  cases hbv : baseOf g s (f + 2) b pre acts with
+  | ok e0 ts0 =>
+    have h1 := hbb e0 ts0 hbv
+    have hbud := iterLoop_budget _ acts s.length hbd (s.length + 1) (s.length + 3) e0 ts0 h1 (by omega) (by omega)
+    simp only
+    rw [hbud]
+    unfold iterLoopZ
+    cases ht : tailOf g s (f + 1) (t0 :: rest) acts e0 with
+    | ok l ts => exact SameButEnd.refl _ _
+    | fail c l =>
+      cases c with
+      | parse =>
+        rw [iterLoop, ht]
+        exact ⟨_, rfl, Or.inr rfl⟩
+      | fatal => exact SameButEnd.refl _ _
+      | «syntax» => exact SameButEnd.refl _ _
+    | idx =>
+      rw [iterLoop, ht]
+      exact ⟨_, rfl, Or.inr rfl⟩
+    | hang => exact SameButEnd.refl _ _
+  | fail c l =>
+    cases c with
+    | parse =>
+      have := hbl l hbv
+      simp only [mfSecond, idxConv, SameButEnd]
+      by_cases hl : l > pre
+      · simp [hl]
+      · have : l = pre := by omega
+        simp [this]
+    | fatal => exact SameButEnd.refl _ _
+    | «syntax» => exact SameButEnd.refl _ _
+  | idx => exact absurd hbv hbidx
+  | hang => exact SameButEnd.refl _ _
 
 end PP.Parse
